@@ -692,6 +692,7 @@ func (r *dRun) post(s *zsim.Sim) *zsim.Violation {
 				if n, ids := r.missing(); n > r.alertSum {
 					return viol("C11.silent_loss", "Close is blocked forever while %d written message(s) %v are neither delivered nor reported (alerts=%d); tasks: %s", n, ids, r.alertSum, s.StuckInfo)
 				}
+				return viol("C11.close_blocked", "Close, called after every Write had returned, is blocked forever: it neither drains nor returns; tasks: %s", s.StuckInfo)
 			}
 			if r.closeRet == 0 || !allReturned {
 				return nil
